@@ -30,11 +30,15 @@ def jobs(tier):
     J.append(Job(S, "barrier", "1,1,0,0" if q else "2,1,0,0", p8, workers=8))
     J.append(Job(S, "wrap", "1,0,0,0" if q else "2,0,0,0", dict(p8, n=7), workers=8))
     J.append(Job(S, "wrap", "1,1,0,0", dict(p8, n=5), workers=8))
+    J.append(Job(S, "late_reader", "2,0,0,0" if q else "3,0,0,0", p8, workers=8))
+    J.append(Job(S, "late_reader", "1,1,0,0", p8, workers=8))
+    J.append(Job(S, "late_reader", "1,0,0,0" if q else "2,0,0,0", dict(p8, third_party=1), workers=8))
     J.append(Job(S, "two_owners", "1,0,0,0" if q else "2,0,0,0", dict(p8, two_owners=1), workers=8))
     for b, env in (("df_memb", {"VRT_MEMBARRIER": 2}), ("df_qsbr", {})):
         p = dict(p8, qs_attempts=1, wait_attempts=1)
         J.append(Job(b, "background", "1,0,0,0" if q else "2,0,0,0", p, env, workers=8))
         J.append(Job(b, "barrier", "1,0,0,0" if q else "2,0,0,0", p, env, workers=8))
+        J.append(Job(b, "late_reader", "1,0,0,0" if q else "2,0,0,0", p, env, workers=8))
         J.append(Job(b, "seq", "0,0,0,0", dict(p, len=2 if q else 3), env, workers=8))
     return J
 
